@@ -14,6 +14,19 @@ pub broadcast proof fn axiom_slice_rc_len(s: &[Rc<SemType>])
     ensures #[trigger] s@.len() <= usize::MAX / 16
 {}
 
+// T2: the key type is the real definition (outside verus!); its derived Clone returns an equal value
+#[verifier::external_type_specification]
+struct ExListNumberKey(ListNumberKey);
+pub assume_specification[ <ListNumberKey as Clone>::clone ](x: &ListNumberKey) -> (r: ListNumberKey)
+    ensures r == *x;
+pub open spec fn sin_val(t: Rc<SemType>) -> bool { all_in_val(t.all) }
+pub open spec fn items_in_val(prefix: Seq<Rc<SemType>>, items: SemType) -> bool {
+    all_in_val(items.all) && forall|i: int| 0 <= i < prefix.len() ==> sin_val(#[trigger] prefix[i])
+}
+pub broadcast proof fn lemma_in_val_zero(x: u32)
+    requires x == 0
+    ensures #[trigger] all_in_val(x)
+{ assert((0u32 & !0x3ffeu32) == 0) by (bit_vector); }
 // the key set: the listed indices (allowed) or all the others (excluded)
 // membership / well-formedness through an Rc (proof code cannot move out of an Rc)
 pub open spec fn smem(t: Rc<SemType>, v: Val) -> bool { mem(*t, v) }
